@@ -31,7 +31,7 @@ class Run:
 
 
 def kestrel(args, env=None, stdin=b"", timeout=60, cwd=None, stdout_path=None, stdin_path=None, raw_env=None, setsid=False,
-            stdout_closed=False):
+            stdout_closed=False, rlimit_as=None):
     """Run the CLI with a clean environment.  stdin is a pipe (never a terminal).  raw_env: further variables given as
     bytes (values that are not UTF-8); setsid: in a session of its own, i.e. without a controlling terminal."""
     e = {"PATH": "/usr/bin:/bin", "HOME": "/nonexistent", "LANG": "C.UTF-8"}
@@ -50,7 +50,8 @@ def kestrel(args, env=None, stdin=b"", timeout=60, cwd=None, stdout_path=None, s
     try:
         p = subprocess.run([KESTREL] + list(args), input=None if fin else stdin, stdin=fin,
                            stdout=fout if fout else subprocess.PIPE, stderr=subprocess.PIPE,
-                           env=e, timeout=timeout, cwd=cwd, start_new_session=setsid)
+                           env=e, timeout=timeout, cwd=cwd, start_new_session=setsid,
+                           preexec_fn=(lambda: __import__("resource").setrlimit(__import__("resource").RLIMIT_AS, (rlimit_as, rlimit_as))) if rlimit_as else None)
         return Run(p.returncode, p.stdout if not fout else b"", p.stderr)
     except subprocess.TimeoutExpired as ex:
         return Run(-999, b"", (ex.stderr or b""), timed_out=True)
